@@ -674,7 +674,8 @@ impl Axecutor {
             if self.mem_init_zero(start, length).is_ok() {
                 break;
             }
-            start += length;
+            // Always make progress, even for zero-length areas
+            start += length.max(1);
         }
 
         Ok(start)
@@ -703,7 +704,8 @@ impl Axecutor {
             if res.is_ok() {
                 break;
             }
-            start += data.len() as u64;
+            // Always make progress, even for zero-length areas
+            start += (data.len() as u64).max(1);
         }
 
         Ok(start)
